@@ -121,7 +121,7 @@ def check(ctx, run):
     run.not_decided.append("acceptance by a conforming XML parser for arbitrary text (needs a parser run on concrete output: another technique family); here only the literal skeleton is parsed and every inserted value is proved to be entity-encoded")
     run.rule("R1", "TAINT: every string that reaches writeToFile is a literal, encodeXmlText(...) or a format whose every %s argument is one of those (safe sources enumerated)", floor=14)
     run.rule("R2", "escaper TABLE/ORDER: encodeXmlText replaces & \" < > CR LF by the right entities and replaces & before anything whose replacement contains &", floor=8)
-    run.rule("R3", "element balance: the document skeleton assembled from the literals of every path combination parses as XML; failure element iff failure_, skipped iff ignored and no failure; writer order", floor=8)
+    run.rule("R3", "element balance: writeTestGroupToFile folded over a heap model of collected results (0..3 test cases, passed / failed / ignored / both, names, files, messages and output full of XML special characters): the text handed to writeToFile between one open and one close is well-formed XML, has the testsuite > properties, testcase*, system-out, system-err structure, and every model value reads back unchanged from the parsed attributes; failure element iff failed, skipped iff ignored and not failed", floor=8)
     run.rule("R4", "counts: testCount_++ once per started test, failureCount_++ only together with storing the first failure, both reset after the group is written; summary attributes print their own counters", floor=7)
     run.rule("R5", "file name derives from encodeFileName whose forbidden set covers / \\ : * ? \" < > |", floor=5)
 
@@ -185,87 +185,99 @@ def check(ctx, run):
         run.ob("R2", "the escaper takes its argument by value semantics (the caller's string is not modified)", enc.site, "const" in enc.params[0]["ct"], witness=enc.params[0]["ct"])
 
     # ---------------- R3 ----------------------------------------------------
-    writers = ["writeXmlHeader", "writeTestSuiteSummary", "writeProperties", "writeTestCases", "writeFailure", "writeFileEnding"]
-    texts = {}
+    # the whole group file folded over a heap model of collected results; the oracle is an XML parser on the text handed
+    # to writeToFile and the model values read back from the parsed attributes
+    import xml.etree.ElementTree as ET
+    grp = prog.fn(CLS + "::writeTestGroupToFile")
+    run.analysed(grp)
 
-    def path_texts(name, stack=()):
-        """list of (text, valuation) for every path of the writer, inlining nested writers"""
-        if name in stack:
-            return [("", {})]
-        f = methods[name]
-        out = []
-        for p in enumerate_paths(f):
-            alts = [("", {})]
-            bad = False
-            for c in path_calls(prog, f, p):
-                nm = prog.callee_name(f, c) or ""
-                if nm == CLS + "::writeToFile":
-                    t = literal_text(prog, f, c)
-                    if t is None:
-                        t = "\x00"
-                    alts = [(a + t, v) for a, v in alts]
-                elif nm.startswith(CLS + "::") and nm.split("::")[-1] in writers:
-                    sub = path_texts(nm.split("::")[-1], stack + (name,))
-                    alts = [(a + s, v) for a, v in alts for s, _ in sub]
-            for a, v in alts:
-                out.append((a, p.val()))
-        return out
-    grp = methods["writeTestGroupToFile"]
-    seqs = []
-    for p in enumerate_paths(grp):
-        seqs.append([(prog.callee_name(grp, c) or "").split("::")[-1] for c in path_calls(prog, grp, p)])
-    want = ["openFileForWrite", "writeXmlHeader", "writeTestSuiteSummary", "writeProperties", "writeTestCases", "writeFileEnding", "closeFile"]
-    for s in seqs:
-        s2 = [x for x in s if x in want]
-        run.ob("R3", "writeTestGroupToFile order", grp.site, s2 == want, witness=s2, what="" if s2 == want else "writers are not called once each in document order")
-    parts = [path_texts(w) for w in ["writeXmlHeader", "writeTestSuiteSummary", "writeProperties", "writeTestCases", "writeFileEnding"]]
-    ndocs = 0
-    for combo in itertools.product(*parts):
-        doc = "".join(t for t, v in combo)
-        ndocs += 1
-        ok, why = True, ""
-        if "\x00" in doc:
-            ok, why = False, "a writeToFile argument could not be resolved to literals"
+    def fold_document(group, package, stdout, cases):
+        IMPL = 3000
+        env = {"impl_": IMPL, "@3000.package_": ("str", package), "@3000.stdOutput_": ("str", stdout), "@3000.results_.group_": ("str", group),
+               "@3000.results_.testCount_": len(cases), "@3000.results_.failureCount_": sum(1 for c in cases if c.get("failure")), "@3000.results_.totalCheckCount_": 0,
+               "@3000.results_.groupExecTime_": 1234, "@3000.results_.startTime_": 5}
+        addr = [4000 + 100 * i for i in range(len(cases))]
+        env["@3000.results_.head_"] = addr[0] if addr else 0
+        env["@3000.results_.tail_"] = addr[-1] if addr else 0
+        fails = {}
+        for i, (a_, c) in enumerate(zip(addr, cases)):
+            fa = 7000 + 10 * i if c.get("failure") else 0
+            if fa:
+                fails[fa] = c["failure"]
+            env.update({"@%d.name_" % a_: ("str", c["name"]), "@%d.file_" % a_: ("str", c["file"]), "@%d.lineNumber_" % a_: c["line"], "@%d.checkCount_" % a_: 3 * (i + 1), "@%d.execTime_" % a_: 1001 * (i + 1),
+                        "@%d.failure_" % a_: fa, "@%d.ignored_" % a_: 1 if c.get("ignored") else 0, "@%d.next_" % a_: addr[i + 1] if i + 1 < len(addr) else 0})
+        out, files = [], []
+
+        def wtf(ev_, *a_):
+            out.append(ev_.cstring(a_[-1]))
+            files.append("write")
+            return 0
+        wtf.wants_ev = True
+        hooks = string_hooks({"SimpleString::replace": mutable_replace, CLS + "::writeToFile": wtf, CLS + "::openFileForWrite": lambda *a_: (files.append("open"), 0)[1], CLS + "::closeFile": lambda *a_: (files.append("close"), 0)[1],
+                              CLS + "::createFileName": lambda *a_: ("str", "cpputest_x.xml"), "GetPlatformSpecificTimeString": lambda *a_: ("str", "2024-01-01T00:00:00"),
+                              "TestFailure::getFileName": lambda o, *a_: ("str", fails[o][0]) if o in fails else None, "TestFailure::getFailureLineNumber": lambda o, *a_: fails[o][1] if o in fails else None,
+                              "TestFailure::getMessage": lambda o, *a_: ("str", fails[o][2]) if o in fails else None})
+        ev = Evaluator(prog, grp, env=env, calls=hooks)
+        ev.heap_mode = True
+        ev.pass_object = True
+        ev.inline = {g.qn for g in prog.functions.values() if g.qn.startswith(CLS + "::")} - set(hooks)
+        ev.run_blocks(grp.entry, max_steps=30000)
+        return "".join(out), files
+    NASTY = 'a<b>&"c\'d'
+    plain = {"name": "t1", "file": "dir/f.cpp", "line": 7}
+    failed = {"name": "t2", "file": "f2.cpp", "line": 9, "failure": ("ff.cpp", 12, "expected <1>\n\tbut was  <2> & \"x\"")}
+    ignored = {"name": "t3", "file": "f3.cpp", "line": 1, "ignored": 1}
+    both = {"name": "t4", "file": "f4.cpp", "line": 2, "ignored": 1, "failure": ("g.cpp", 3, "m")}
+    nasty = {"name": NASTY, "file": "d&<>\".cpp", "line": 5, "failure": ("x<y>.cpp", 44, NASTY + "\r\n&amp;")}
+    scenarios = [("grp", "", "", []), ("grp", "", "", [plain]), ("grp", "pkg", "", [plain, failed, ignored]), ("grp", "", "some output\n", [both, plain]),
+                 ('g<1>&"x"', 'p&<k>', "out <b> & \"q\"\r\n", [nasty, ignored, nasty]), ("grp", "pkg", "]]> &#10; &amp;", [failed, failed]),
+                 ("it's", "", "'single' \"double\"", [ignored]), ("grp", "a.b", "<?xml version=\"1.0\"?><x/>", [ignored, both, nasty]), ("G", "", "line1\nline2\n", [plain, plain, plain])]
+    for group, package, stdout, cases in scenarios:
+        inst = "group file folded: group %r, package %r, %d test cases (%s)" % (group, package, len(cases), ", ".join(("failed+ignored" if c.get("failure") and c.get("ignored") else "failed" if c.get("failure") else "ignored" if c.get("ignored") else "passed") for c in cases))
+        try:
+            doc, files = fold_document(group, package, stdout, cases)
+        except Unknown as u:
+            raise AnalysisBroken("C16.R3: writeTestGroupToFile cannot be folded over the result model: %s" % u)
+        why = []
+        if files[:1] != ["open"] or files[-1:] != ["close"] or files.count("open") != 1 or files.count("close") != 1:
+            why.append("the file is not opened once before and closed once after all writes (%s...)" % files[:3])
+        body = doc.split("?>", 1)[1] if doc.startswith("<?xml") and "?>" in doc else None
+        root = None
+        if body is None:
+            why.append("the document does not start with the XML declaration")
         else:
             try:
-                body = doc
-                if body.startswith("<?xml"):
-                    body = body[body.index("?>") + 2:]
-                root = ET.fromstring(body.strip())
-                if root.tag != "testsuite":
-                    ok, why = False, "document element is %s" % root.tag
-                else:
-                    kids = [c.tag for c in root]
-                    order = [k for k in kids if k != "testcase"]
-                    if order != ["properties", "system-out", "system-err"] or any(k not in ("properties", "testcase", "system-out", "system-err") for k in kids):
-                        ok, why = False, "unexpected children %s" % kids
-                    for a in ("failures", "name", "tests"):
-                        if a not in root.attrib:
-                            ok, why = False, "testsuite lacks attribute %s" % a
-                    for tc in root.iter("testcase"):
-                        for a in ("name", "classname", "file", "line"):
-                            if a not in tc.attrib:
-                                ok, why = False, "testcase lacks attribute %s" % a
+                root = ET.fromstring(body)
             except ET.ParseError as e:
-                ok, why = False, "skeleton is not well-formed: %s" % e
-        run.ob("R3", "document skeleton #%d parses" % ndocs, grp.site, ok, witness=short(doc.replace("\n", "\\n"), 400), what=why)
-    wtc = methods["writeTestCases"]
-    for text, val in path_texts("writeTestCases"):
-        if "<testcase" not in text:
-            continue
-        fail = [v for k, v in val.items() if k.endswith("->failure_")]
-        ign = [v for k, v in val.items() if k.endswith("->ignored_")]
-        has_f, has_s = "<failure" in text, "<skipped" in text
-        okf = len(fail) == 1 and has_f == fail[0]
-        oks = (has_s == (fail == [False] and ign == [True]))
-        run.ob("R3", "failure element iff failure_, skipped iff ignored and not failed [%s]" % ", ".join("%s=%s" % kv for kv in sorted(val.items()) if "->" in kv[0]),
-               wtc.site, okf and oks, witness=short(text.replace("\n", "\\n"), 300))
-        run.ob("R3", "one testcase element per node on this path", wtc.site, text.count("<testcase") == text.count("</testcase>") == 1, witness=text.count("<testcase"))
-    # the loop advances along next_ from head_
-    asg = [(l, render(wtc, r)) for l, r, n in assignments(wtc)]
-    ini = {k: render(wtc, v) for k, v in local_inits(wtc).items()}
-    ok = ("cur", "cur->next_") in asg and ini.get("cur") == "impl_->results_.head_"
-    run.ob("R3", "test cases are written in list order from head_ along next_", wtc.site, ok, witness={"init": ini, "assign": asg})
+                why.append("the document is not well-formed XML: %s" % e)
+        if root is not None:
+            kids = list(root)
+            if root.tag != "testsuite" or [k.tag for k in kids] != ["properties"] + ["testcase"] * len(cases) + ["system-out", "system-err"]:
+                why.append("element structure is %s > %s" % (root.tag, [k.tag for k in kids]))
+            else:
+                nfail = sum(1 for c in cases if c.get("failure"))
+                if (root.get("name"), root.get("tests"), root.get("failures")) != (group, str(len(cases)), str(nfail)):
+                    why.append("testsuite attributes read back as name=%r tests=%s failures=%s; the model has %r, %d, %d" % (root.get("name"), root.get("tests"), root.get("failures"), group, len(cases), nfail))
+                for c, el in zip(cases, kids[1:1 + len(cases)]):
+                    want = {"classname": (package + "." if package else "") + group, "name": c["name"], "file": c["file"], "line": str(c["line"])}
+                    got = {k_: el.get(k_) for k_ in want}
+                    if got != want:
+                        why.append("testcase attributes read back as %s; the model has %s" % (got, want))
+                    sub = [x.tag for x in el]
+                    wsub = ["failure"] if c.get("failure") else (["skipped"] if c.get("ignored") else [])
+                    if sub != wsub:
+                        why.append("test case %r has children %s, expected %s (failure iff failed, skipped iff ignored and not failed)" % (c["name"], sub, wsub))
+                    elif c.get("failure"):
+                        f_ = c["failure"]
+                        msg = el[0].get("message")
+                        # (a literal TAB in an attribute value is normalised to a blank by every conforming parser; the
+                        # property speaks of the characters with XML meaning: & < > " ' and line breaks)
+                        if msg != ("%s:%d: %s" % f_).replace("\t", " "):
+                            why.append("failure message reads back as %r; the model has %r" % (msg, "%s:%d: %s" % f_))
+                so_ = kids[-2].text or ""
+                if so_ != stdout.replace("\r\n", "\n").replace("\r", "\n") and so_ != stdout:
+                    why.append("system-out reads back as %r; the collected output is %r" % (so_, stdout))
+        run.ob("R3", inst, grp.site, not why, witness=why or short(doc.replace("\n", "\\n"), 300), what="; ".join(why))
 
     # ---------------- R4 ----------------------------------------------------
     st = methods["printCurrentTestStarted"]
